@@ -273,6 +273,10 @@ def run(case):
                 out = T['f'](rt.track(pos0.copy(), 'pos'), npart, box, weights=None if w0 is None else rt.track(w0.copy(), 'weights'),
                              coord=coord, nthread=nthread, sort=sort)
             except Exception as e:
+                from vf import core
+                st = core.stale_reason(e)
+                if st or type(e).__name__ == 'TwinError':
+                    raise core.Stale(st or f'TwinError: {e}')
                 add('twin:raises:' + type(e).__name__, f'{tag}: {type(e).__name__}: {e}')
                 continue
             ntwin += 1
@@ -291,7 +295,8 @@ def run(case):
             if scat is not None and N > 0:
                 for rid, (mn, mx, nw) in scat.write_counts.items():
                     root = rt.roots[rid]
-                    if root.kind == 'empty' and root.size in (3 * N, N) and 'empty_like' in root.label:
+                    returned = [np.asarray(a) for a in (out[0], out[2]) if a is not None and np.asarray(a).size]
+                    if root.kind == 'empty' and root.size in (3 * N, N) and any(np.shares_memory(a, root.arr) for a in returned):      # the returned arrays only, not scratch
                         if not (mn == 1 and mx == 1 and nw == root.size):
                             add('por:output-not-written-exactly-once', f'{tag}: {root.label}: write counts min {mn} max {mx}, {nw}/{root.size} elements written in the scatter region')
             # twin result must equal the compiled result with one real thread when unsorted order is defined (same nthread)
